@@ -89,6 +89,7 @@ structure StepFacts (digest : Src → Nat) (d : Dir) (nt : Nat) (src : Src) (pc 
   final_ok' : FinalOK digest r.1
   fresh' : ∀ t k, r.2.1 ≤ t → r.1 (.priv t k) = .absent
   tmp' : ∀ t, tmpOf r.2.2 = some t → tmpOf pc = some t ∨ nt ≤ t
+  shared_frame : ∀ n k, Path.shared n k ≠ final (digest src) → r.1 (.shared n k) = d (.shared n k)
 
 /-- a write into the owner's private directory -/
 theorem facts_priv_write {digest : Src → Nat} {d : Dir} {nt : Nat} {src : Src} {pc pc' : PC}
@@ -119,6 +120,10 @@ theorem facts_priv_write {digest : Src → Nat} {d : Dir} {nt : Nat} {src : Src}
     · intro h; injection h with h1 h2; subst h1; exact absurd hlt (Nat.not_lt.mpr ht)
   tmp' := by
     intro t ht; left; rw [hown]; rw [hown'] at ht; exact ht
+  shared_frame := by
+    intro n k _
+    dsimp only
+    exact set_other _ _ _ _ (by intro h; cases h)
 
 /-- a step that does not touch the directory -/
 theorem facts_nowrite {digest : Src → Nat} {d : Dir} {nt : Nat} {src : Src} {pc pc' : PC}
@@ -132,6 +137,7 @@ theorem facts_nowrite {digest : Src → Nat} {d : Dir} {nt : Nat} {src : Src} {p
   final_ok' := hfin
   fresh' := hfresh
   tmp' := by intro t ht; rw [htmp] at ht; cases ht
+  shared_frame := fun _ _ _ => rfl
 
 
 theorem rmtree_shared (d : Dir) (t n : Nat) (k : Kind) : d.rmtree t (.shared n k) = d (.shared n k) := rfl
@@ -163,7 +169,7 @@ theorem pstep_facts {digest : Src → Nat} (hinj : Function.Injective digest)
         · rw [h]; rfl
   | mk =>
       simp only [pstep]
-      refine ⟨?_, Nat.le_succ _, fun _ _ _ => rfl, fun _ _ h => h, hfin, ?_, ?_⟩
+      refine ⟨?_, Nat.le_succ _, fun _ _ _ => rfl, fun _ _ h => h, hfin, ?_, ?_, fun _ _ _ => rfl⟩
       · simp [ProcOK]
       · intro t k ht; exact hfresh t k (Nat.le_of_succ_le ht)
       · intro t ht; simp [tmpOf] at ht; right; omega
@@ -223,7 +229,11 @@ theorem pstep_facts {digest : Src → Nat} (hinj : Function.Injective digest)
       obtain ⟨hlt, hso⟩ := hok
       simp only [pstep, hso]
       have hne : final (digest src) ≠ Path.priv t Kind.so := final_ne_priv _ _ _
-      refine ⟨?_, Nat.le_refl _, ?_, ?_, ?_, ?_, ?_⟩
+      refine ⟨?_, Nat.le_refl _, ?_, ?_, ?_, ?_, ?_, ?_⟩
+      rotate_left 6
+      · intro n k hnk
+        dsimp only
+        rw [set_other _ _ _ _ (by intro h; cases h), set_other _ _ _ _ hnk]
       · simp only [ProcOK]
         refine ⟨hlt, ?_⟩
         rw [set_other _ _ _ _ hne, set_same]
@@ -259,7 +269,7 @@ theorem pstep_facts {digest : Src → Nat} (hinj : Function.Injective digest)
       simp only [ProcOK] at hok
       obtain ⟨hlt, hfinal⟩ := hok
       simp only [pstep]
-      refine ⟨?_, Nat.le_refl _, ?_, ?_, ?_, ?_, ?_⟩
+      refine ⟨?_, Nat.le_refl _, ?_, ?_, ?_, ?_, ?_, fun _ _ _ => rfl⟩
       · simp only [ProcOK]; exact hfinal
       · intro t' k ht'
         dsimp only
